@@ -55,7 +55,7 @@ def build(tier):
                          bound="every line of exactly %d bytes over the alphabet { '(', ')', ' ', 'a' } (concrete length, symbolic content)" % n,
                          what="parse_pkg_dep_line returns Ok or Err and never panics (slice indices, `len() - 1`)"))
     src = ENV.replace("@ParsedPkgLine@", fr["ParsedPkgLine"]["text"]).replace("@parse_pkg_dep_line@", fr["parse_pkg_dep_line"]["text"]).replace("@HARNESSES@", "\n    ".join(hs))
-    u = vf.KaniUnit("lock_parse_line", {"src/lib.rs": src}, obs, timeout_s=1200, jobs=3, auto_files=[LF])
+    u = vf.KaniUnit("lock_parse_line", {"src/lib.rs": src}, obs, timeout_s=2400, jobs=3, auto_files=[LF])
     u.fragments = [vf.frag_record(fr[k]) for k in fr]
     u.rewrites = [{"rule": "R0", "before": "parse_pkg_dep_line verbatim; anyhow! bound to a unit-error macro", "after": "", "times": 1}]
     u.assumptions = ["fuel_tx::Salt::from_str is total (returns Ok or Err for every string); toml deserialisation is total (third party)",
